@@ -18,7 +18,8 @@ ASSUMPTIONS = [
     "observable state = variable count and list, index maps on a tuple box, objective and constraint data, QUBO (both modes), stored feasible solution, routes decoded from it",
     "the path-based route sampler is re-seeded identically for both twins (its randomness is C17's subject)",
 ]
-PARTIAL = []
+PARTIAL = ["the Lean cache machine has the query kinds size / objective / constraints; index lookups, QUBO and route decoding are compositions of these in the real code and are covered by the twin-run oracle"]
+TRUSTED = ["C14 sequence-based reset-site theorem assumes unique node names (guaranteed by add_node; refuted in Lean without it)"]
 BUDGET_S = {"quick": 150, "thorough": 1500}
 QUERIES = ["n", "idx", "tup", "obj", "con", "qubo_o", "qubo_f", "routes"]
 
